@@ -291,6 +291,12 @@ func (t *Tool) Kind(id, a int64) interface{} {
 // fact to a method is not an announcement that it changed.
 func (t *Tool) Note(v interface{}) { t.enter("Note") }
 
+// NArgs counts what it is handed: a single slice argument is ONE argument.
+func (t *Tool) NArgs(args ...interface{}) int64 {
+	t.enter("NArgs", len(args))
+	return int64(len(args))
+}
+
 // KindOf reports the dynamic kind and the value it was given (constants that look alike in
 // print - "7" and 7, "true" and true - must arrive as what they are).
 func (t *Tool) KindOf(v interface{}) string {
